@@ -93,3 +93,6 @@ func vh_C13_merlin() {
 	tr, isT := rng.(*transcriptRng)
 	verif.Assert(isT && *tr.s == *rs, "RNG state after Read(n) = state after meta-AD(LE32(n)); PRF(n), also for n = 0")
 }
+
+// VerifSameTranscript: identical STROBE states (for the harnesses of packages built on Merlin).
+func VerifSameTranscript(a, b *Transcript) bool { return a.s == b.s }
